@@ -21,6 +21,24 @@ def key(v):
     return repr(P(v))
 
 
+class Snapshot(Opaque):
+    """what to_bytearray(position, n) returns when the bytes are not one known string: opaque to the code, but it
+    remembers the known words and byte strings of the range, so that update_from_buffer(position, <it>) restores them"""
+
+    def __init__(self, tag, pos, nbytes, words, bytes_):
+        Opaque.__init__(self, tag)
+        self.pos, self.nbytes, self.words, self.bytes = pos, nbytes, list(words), list(bytes_)  # words / bytes: [(relative offset, value)]
+
+    def __eq__(self, other):
+        return self is other
+
+    def __hash__(self):
+        return id(self)
+
+    def __deepcopy__(self, memo):
+        return self
+
+
 class World:
     """one interpreter + abstract buffer + hooks; reset per path by Interp.explore"""
 
@@ -127,6 +145,72 @@ class World:
             return a
         return SArr([0], sym=f"words@{key(offset)}")
 
+    # ---------------------------------------------------------------- known words and byte strings of a range
+    @staticmethod
+    def _rel(pp, lo):
+        d = pp - lo
+        return d.const_value() if d.is_const() else None
+
+    def _get_words(self, I, lo, n):
+        """[(offset relative to lo, value)] of the known words that start inside [lo, lo + n)"""
+        out = []
+        for kk in I.mem:
+            pp = self.polys.get(kk) if not kk.startswith("#") else None
+            r = self._rel(pp, lo) if pp is not None else None
+            if r is not None and 0 <= r < n:
+                out.append((r, I.mem[kk]))
+        return sorted(out, key=lambda t: t[0])
+
+    def _get_bytes(self, I, lo, n):
+        """[(offset relative to lo, bytes)]: the parts of the known byte strings that lie inside [lo, lo + n)"""
+        out = []
+        for pp, data in I.mem.get("#bytes", {}).values():
+            r = self._rel(pp, lo)
+            if r is None or r >= n or r + len(data) <= 0:
+                continue
+            a, b = max(r, 0), min(r + len(data), n)
+            out.append((a, data[a - r: b - r]))
+        return sorted(out, key=lambda t: t[0])
+
+    @staticmethod
+    def _join(pieces, n):
+        """the n bytes the pieces make up when they cover [0, n) without a gap, else None"""
+        buf, pos = b"", 0
+        for r, data in pieces:
+            if r > pos:
+                return None
+            buf += data[pos - r:]
+            pos = max(pos, r + len(data))
+        return buf[:n] if pos >= n and n > 0 else None
+
+    def _cut(self, I, lo, n):
+        """forget what is known about [lo, lo + n): words that start inside, and the inside part of byte strings"""
+        for kk in [kk for kk in list(I.mem) if not kk.startswith("#") and kk in self.polys]:
+            r = self._rel(self.polys[kk], lo)
+            if r is not None and 0 <= r < n:
+                del I.mem[kk]
+        bs = I.mem.get("#bytes")
+        if not bs:
+            return
+        for kk, (pp, data) in list(bs.items()):
+            r = self._rel(pp, lo)
+            if r is None or r >= n or r + len(data) <= 0:
+                continue
+            del bs[kk]
+            if r < 0:
+                bs[repr(pp)] = (pp, data[: -r])
+            if r + len(data) > n:
+                q = lo + Poly.const(n)
+                bs[repr(q)] = (q, data[n - r:])
+
+    def _put_word(self, I, pos, val):
+        I.mem[repr(pos)] = val
+        self.polys[repr(pos)] = pos
+
+    def _put_bytes(self, I, pos, data):
+        if data:
+            I.mem.setdefault("#bytes", {})[repr(pos)] = (pos, bytes(data))
+
     # ---------------------------------------------------------------- abstract buffer
     def mk_buffer(self, name):
         I = self.I
@@ -139,37 +223,49 @@ class World:
                 I.effects.append(Effect(kind, args=a, kwargs=k, buf=b))
                 if self.copy_bytes and kind == "update_from_buffer" and len(a) == 2 and isinstance(a[1], (bytes, bytearray)) and topoly(a[0]) is not None:
                     # known byte strings are kept (per path: the store lives in I.mem under a reserved key)
-                    I.mem.setdefault("#bytes", {})[repr(topoly(a[0]))] = (topoly(a[0]), bytes(a[1]))
+                    self._cut(I, topoly(a[0]), len(a[1]))
+                    self._put_bytes(I, topoly(a[0]), bytes(a[1]))
+                if self.copy_bytes and kind == "update_from_buffer" and len(a) == 2 and not isinstance(a[1], (bytes, bytearray, Snapshot)) and topoly(a[0]) is not None:
+                    # data of unknown content and length: nothing at or behind the position (same allocation) stays known
+                    self._cut(I, topoly(a[0]), 1 << 40)
+                    I.mem["#imprecise"] = True
+                if self.copy_bytes and kind in ("update_from_nplike", "update_from_native") and a and topoly(a[0]) is not None:
+                    # bulk stores whose content this memory does not follow
+                    self._cut(I, topoly(a[0]), 1 << 40)
+                    I.mem["#imprecise"] = True
                 if self.copy_bytes and kind == "to_bytearray" and len(a) == 2 and topoly(a[0]) is not None and topoly(a[1]) is not None and topoly(a[1]).is_const():
-                    ent = I.mem.get("#bytes", {}).get(repr(topoly(a[0])))
-                    if ent is not None and len(ent[1]) >= topoly(a[1]).const_value():
-                        return bytearray(ent[1][: topoly(a[1]).const_value()])
-                    if ent is None and self.zero_fill and not any(pp is not None and (pp - topoly(a[0])).is_const() and 0 <= (pp - topoly(a[0])).const_value() < topoly(a[1]).const_value() for pp in ([e_[0] for e_ in I.mem.get("#bytes", {}).values()] + [self.polys.get(k_) for k_ in I.mem if k_ != "#bytes"])):
+                    src, nb = topoly(a[0]), topoly(a[1]).const_value()
+                    pieces = self._get_bytes(I, src, nb)
+                    got = self._join(pieces, nb)
+                    if got is not None:
+                        return bytearray(got)
+                    if not pieces and self.zero_fill and not self._get_words(I, src, nb):
                         # never-written storage of a fresh buffer (no free / reuse in this world) is zero
-                        return bytearray(topoly(a[1]).const_value())
+                        return bytearray(nb)
+                    # not one known string: opaque to the code, but restorable
+                    return Snapshot(f"bytes@{a[0]!r}+{a[1]!r}", src, nb, self._get_words(I, src, nb), pieces)
                 if kind == "update_from_xbuffer" and self.copy_bytes and len(a) == 4:
                     dst, src, nb = topoly(a[0]), topoly(a[2]), topoly(a[3])
                     if dst is not None and src is not None and nb is not None and nb.is_const():
-                        moved = []
-                        for kk in list(I.mem):
-                            pp = self.polys.get(kk)
-                            if pp is None:
-                                continue
-                            d = pp - src
-                            if d.is_const() and 0 <= d.const_value() < nb.const_value():
-                                moved.append((dst + d, I.mem[kk]))
-                        # words of the destination range that are not overwritten by a known word become unknown
-                        for kk in [kk for kk in list(I.mem) if kk in self.polys and (self.polys[kk] - dst).is_const() and 0 <= (self.polys[kk] - dst).const_value() < nb.const_value()]:
-                            del I.mem[kk]
-                        for np_, val in moved:
-                            I.mem[repr(np_)] = val
-                            self.polys[repr(np_)] = np_
-                        bs = I.mem.get("#bytes", {})
-                        mv = [(dst + (pp - src), data) for pp, data in list(bs.values()) if (pp - src).is_const() and 0 <= (pp - src).const_value() < nb.const_value()]
-                        for kk in [kk for kk, (pp, _d) in list(bs.items()) if (pp - dst).is_const() and 0 <= (pp - dst).const_value() < nb.const_value()]:
-                            del bs[kk]
-                        for np_, data in mv:
-                            I.mem.setdefault("#bytes", {})[repr(np_)] = (np_, data)
+                        n = nb.const_value()
+                        words, pieces = self._get_words(I, src, n), self._get_bytes(I, src, n)
+                        # what is not overwritten by something known becomes unknown
+                        self._cut(I, dst, n)
+                        for rel, val in words:
+                            self._put_word(I, dst + Poly.const(rel), val)
+                        for rel, data in pieces:
+                            self._put_bytes(I, dst + Poly.const(rel), data)
+                    elif dst is not None:
+                        self._cut(I, dst, nb.const_value() if nb is not None and nb.is_const() else 1 << 40)
+                        I.mem["#imprecise"] = True
+                if self.copy_bytes and kind == "update_from_buffer" and len(a) == 2 and isinstance(a[1], Snapshot) and topoly(a[0]) is not None:
+                    # the bytes of a range saved earlier are put back (save / restore around a refused update)
+                    snap, dst = a[1], topoly(a[0])
+                    self._cut(I, dst, snap.nbytes)
+                    for rel, val in snap.words:
+                        self._put_word(I, dst + Poly.const(rel), val)
+                    for rel, data in snap.bytes:
+                        self._put_bytes(I, dst + Poly.const(rel), data)
                 if kind == "to_bytearray":
                     return Opaque(f"bytes@{a[0]!r}+{a[1]!r}")
                 if kind == "allocate":
